@@ -137,24 +137,52 @@ def publish_order(ctx):
     g = cfg_of(f)
     w = [c for c in calls_in(f) if call_name(c) == "concurrency_safe_write"]
     mv = [c for c in calls_in(f) if call_name(c) == "self._move_item"]
-    if not (w and mv):
+    inlined = False
+    if not w and mv and len(f.args.args) > 3:
+        # the same helper with the module-level function inlined: the write function is called on a local whose single
+        # definition extends the final name by a suffix holding the process id and the thread identity
+        fin, wfp_ = f.args.args[2].arg, f.args.args[3].arg
+        for c in [c for c in calls_in(f) if dotted(c.func) == wfp_ and len(c.args) == 2 and isinstance(c.args[1], ast.Name)]:
+            dd = _local_def(f, c.args[1].id)
+            if len(dd) != 1:
+                continue
+            v = dd[0].value
+            txt = unparse(v, 400)
+            ext = (isinstance(v, ast.Call) and isinstance(v.func, ast.Attribute) and v.func.attr == "format" and isinstance(v.func.value, ast.Constant)
+                   and str(v.func.value.value).startswith("{}") and len(str(v.func.value.value)) > 2 and v.args and dotted(v.args[0]) == fin)
+            tid = "get_ident()" in txt or "current_thread()" in txt or any(isinstance(a_, ast.Name) and len(_local_def(f, a_.id)) == 1 and
+                  unparse(_local_def(f, a_.id)[0].value) in ("threading.get_ident()", "id(threading.current_thread())") for a_ in (v.args[1:] if isinstance(v, ast.Call) else []))
+            if ext and "os.getpid()" in txt and tid and dotted(c.args[0]) == f.args.args[1].arg:
+                inlined = True
+                ctx.ok(c, "the helper writes a temporary file named final + '.thread-<id>-pid-<pid>' itself (module-level helper inlined)")
+                for m_ in mv:
+                    ctx.check(g.every_path_to(g.nodes_of(m_), g.nodes_of(c)), m_, "the temporary file is completely written (write function returned) before the rename")
+                    ctx.check(len(m_.args) == 2 and dotted(m_.args[0]) == c.args[1].id and dotted(m_.args[1]) == fin, m_, "rename(temporary, final)", "rename arguments are %s" % unparse(m_))
+                ctx.check(g.every_path_from([g.entry], g.nodes_of_all(mv)) and g.every_path_from([g.entry], g.nodes_of(c)), mv[0],
+                          "every path of the helper writes the temporary file and renames it (no shortcut path)", "a path of _concurrency_safe_write skips the temporary file or the rename")
+        others = [c for c in calls_in(f) if dotted(c.func) == wfp_ and not (len(c.args) == 2 and isinstance(c.args[1], ast.Name) and c.args[1].id != fin)]
+        for c in others:
+            ctx.bad(c, "the write function is called directly on the final name inside the helper: the file appears under its final name while it is being written")
+    if not (w and mv) and not inlined:
         ctx.bad(f, "_concurrency_safe_write no longer writes a temporary file and renames it (%s missing): final names are not published atomically" % ("the rename" if w else "the temporary write"),
                 key=SB + "::StoreBackendMixin._concurrency_safe_write::write-then-rename")
         return
-    tmp = enclosing_stmt(w[0])
+    tmp = enclosing_stmt(w[0]) if w else None
     tname = tmp.targets[0].id if isinstance(tmp, ast.Assign) and isinstance(tmp.targets[0], ast.Name) else None
-    for c in mv:
+    for c in (mv if w else []):
         ctx.check(g.every_path_to(g.nodes_of(c), g.nodes_of_all(w)), c, "the temporary file is completely written (write function returned) before the rename")
         params = [a.arg for a in f.args.args]
         ctx.check(len(c.args) == 2 and dotted(c.args[0]) == tname and dotted(c.args[1]) == params[2], c, "rename(temporary, final)", "rename arguments are %s" % unparse(c))
-    ctx.check(len(w[0].args) == 3 and [dotted(a) for a in w[0].args] == [a.arg for a in f.args.args][1:], w[0], "helper forwards (object, final name, write function)")
+    if w:
+        ctx.check(len(w[0].args) == 3 and [dotted(a) for a in w[0].args] == [a.arg for a in f.args.args][1:], w[0], "helper forwards (object, final name, write function)")
     wfp = f.args.args[3].arg if len(f.args.args) > 3 else None
-    direct = [c for c in calls_in(f) if dotted(c.func) == wfp]
+    direct = [c for c in calls_in(f) if dotted(c.func) == wfp] if w else []
     for c in direct:
         ctx.bad(c, "the write function is called directly on %s inside the helper: the file appears under its final name while it is being written "
                 "(a kill or a concurrent reader sees a torn file)" % (unparse(c.args[1]) if len(c.args) > 1 else "?"))
-    ctx.check(g.every_path_from([g.entry], g.nodes_of_all(mv)) and g.every_path_from([g.entry], g.nodes_of_all(w)), mv[0],
-              "every path of the helper writes the temporary file and renames it (no shortcut path)", "a path of _concurrency_safe_write skips the temporary file or the rename")
+    if w:
+        ctx.check(g.every_path_from([g.entry], g.nodes_of_all(mv)) and g.every_path_from([g.entry], g.nodes_of_all(w)), mv[0],
+                  "every path of the helper writes the temporary file and renames it (no shortcut path)", "a path of _concurrency_safe_write skips the temporary file or the rename")
     cw = ctx.repo.func(SB, "concurrency_safe_write")
     gc_ = cfg_of(cw)
     calls = [c for c in calls_in(cw) if dotted(c.func) == cw.args.args[2].arg]
@@ -1551,7 +1579,15 @@ def paths(ctx):
         ok = dotted(a0) == "filename" or any(isinstance(w, ast.With) and any(dotted(i.optional_vars) == dotted(a0) and isinstance(i.context_expr, ast.Call) and dotted(i.context_expr.args[0]) == "filename" for i in w.items) for w in ancestors(c))
         ctx.check(ok, c, "what is loaded is the entry's output.pkl")
     rets = nodes_of_type(li, ast.Return)
-    ctx.check(rets and all(dotted(r.value) == "item" for r in rets), rets[0] if rets else li, "the loaded object is returned unchanged")
+    def _is_loaded(v):
+        # the load call itself, or a local every definition of which is a load call
+        if isinstance(v, ast.Call):
+            return any(v is c for c in lo)
+        if isinstance(v, ast.Name):
+            dd = [a for a in nodes_of_type(li, (ast.Assign, ast.AugAssign, ast.AnnAssign)) if v.id in stores_to(a)]
+            return bool(dd) and all(isinstance(a, ast.Assign) and any(a.value is c for c in lo) for a in dd)
+        return False
+    ctx.check(rets and all(_is_loaded(r.value) for r in rets), rets[0] if rets else li, "the loaded object is returned unchanged")
 
 
 def shelve(ctx):
